@@ -418,6 +418,8 @@ def run_property(pid: str, tier: str, seed: int) -> int:
                                   "detail": fl.detail, "broken_obligations": broken, "seed": seed, "tier": tier,
                                   "other_failures": len(new_failures) - 1})
         lines.append(f"VIOLATION property={pid} replay={path}")
+        for other in new_failures[1:12]:  # further distinct failing inputs of this run (triage aid; the replay holds the first)
+            lines.append(f"  also-failing: sig={json.dumps(other.sig, sort_keys=True, default=str)[:300]} :: {other.detail[:160]!r}")
         rc = 1
         violations = len(new_failures)
     elif broken:
